@@ -83,6 +83,8 @@ class SimClock(task.Clock):
                 return "stop"
             nt = self.next_time()
             if nt is None:
+                if until is not None and until > self.rightNow:
+                    self.rightNow = until
                 return "idle"
             if until is not None and nt > until:
                 if until > self.rightNow:
